@@ -125,11 +125,12 @@ def run_modal(rep, logics, d, tag, maxw=3, workers=2, full=False):
     with open(rules, 'w') as f:
         for k in range(ns):
             f.write(open(d / f'{tag}-mrules{k}.ndjson').read())
-    args = modal_args()
-    if not full:
-        args = {k: v for k, v in args.items() if k not in ('two-nec',)}
+    all_args = modal_args()
     calls = []
     for L in logics:
+        # 'two-nec' (three modal premises) is affordable only where the frame rules add nothing (K-based logics):
+        # with reflexive / transitive closure its schedule space exceeds an hour of TLC time
+        args = {k: v for k, v in all_args.items() if k != 'two-nec' or (full and L in ('K', 'KFDE', 'KK3WQ', 'KB3E'))}
         pf = d / f'{tag}-mpar-{L}.json'
         pf.write_text(json.dumps({'logic': L, 'args': list(args.values()), 'maxw': maxw}))
         calls.append(dict(module='TableauModalMC', cfg=MODAL_CFG, env={'RULES': rules_for(rules, L, d, tag + 'm'), 'PAR': pf}, workers=workers,
